@@ -297,14 +297,31 @@ func VerifC09Status(mode int) {
 // VerifC09Roots: get-roots reports exactly the accepted roots, and the endpoint type checks of the
 // two handlers' closures (executed through addChain/addPreChain's own checkType logic).
 func VerifC09Roots() {
-	w := newWorld(0, 0)
+	w := newWorld(1, 0)
 	w.clockMode = 1
 	l, _ := w.bootstrap(0)
+	ctx := context.Background()
 	pem := verifNondetBytes("pem", 3)
 	before := l.rootPool()
-	err := l.SetRootsFromPEM(context.Background(), pem)
-	verifAssert(err == nil, "installing roots fails")
-	verifAssert(l.rootPool() != before || verifBytesEq(pem, []byte("")), "the root pool is not swapped")
+	beforePEM := append([]byte{}, l.RootsPEM()...)
+	// first attempt: the upload of _roots.pem may fail (applied or not)
+	w.armed = true
+	err := l.SetRootsFromPEM(ctx, pem)
+	w.armed = false
+	if err != nil {
+		verifReach("failed")
+		verifAssert(w.faults == 0, "installing roots fails although storage did not")
+		// a failed reload changes nothing in memory: the old roots stay in force and are still reported
+		verifAssert(l.rootPool() == before, "a failed reload swapped the root pool")
+		verifAssert(verifBytesEq(l.RootsPEM(), beforePEM), "a failed reload changed the reported roots")
+		// the periodic reload retries with the same bytes: now storage works and the roots must be installed
+		err = l.SetRootsFromPEM(ctx, pem)
+		verifAssert(err == nil, "retrying the reload fails although storage works")
+	}
+	if err != nil {
+		return
+	}
+	verifAssert(l.rootPool() != before || verifBytesEq(pem, beforePEM), "a reload that reports success did not swap the root pool")
 	verifAssert(verifBytesEq(l.RootsPEM(), pem), "the installed PEM is not what is reported")
 	o, ok := w.objects["_roots.pem"]
 	verifAssert(ok && verifBytesEq(o.data, pem), "the accepted roots are not persisted")
